@@ -154,7 +154,12 @@ let run_events (c : config) (s : state) (evs : (string * event) list) : (state, 
                       | Stdlib.Error _ as err -> (match try_inflight xs with Stdlib.Ok r -> Stdlib.Ok r | Stdlib.Error _ -> err))
                    | Err _ -> try_inflight xs)
                 | Err _ -> try_inflight xs) in
-           try_inflight (List.filter (fun x -> match x with EvCkPartial | EvRcChosen _ | EvRcNone | EvRcRestored _ -> false | _ -> true) (inflight s)))
+           (* wal.ReleaseLockTo is logged after it has acted (sn.release.after, rd.release.after): the WAL purger may remove a
+              segment it released before the log line is written. Not a persistent mutation (not in [inflight]), but it
+              enables the purge: completed here like the other in-flight sub-steps *)
+           let releases = List.filter_map (fun (i, p) -> if p = SnSynced then Some (EvSnReleased i) else None) s.sns
+                          @ (match s.rdp with RdSnapApply (r, S O) -> [EvRdReleaseAfter r.r_snap] | _ -> []) in
+           try_inflight (List.filter (fun x -> match x with EvCkPartial | EvRcChosen _ | EvRcNone | EvRcRestored _ -> false | _ -> true) (inflight s @ releases)))
       end in
   go s [] 0 evs
 
